@@ -47,6 +47,7 @@ def stepLine (st : DState) (line : String) : DState × String :=
     | some m => (st, "ok " ++ (SignBytes.aolRender m).toHex)
     | none => (st, "bad-op")
   | ["mon.c12.genesis-nul"] => (st, "pass")       -- identifiers with the x/nft key delimiter never get into the state: C12
+  | ["mon.c05.genesis-tombstone-with-residue"] => (st, "pass")  -- a tombstone (no id, sequence past the initial one) is one whatever else the entry carries
   | ["mon.c05.genesis-seq-wrap"] => (st, "pass")  -- a deactivated DID is never creatable again: C05
   | ["mon.c05.seq-exhaustion", _] => (st, "pass")  -- the same at the end of the sequence space reached by updates
   | ["mon.c17.endblock-not-halted"] => (st, "pass")  -- C17: crafted transactions cannot make the end-blocker panic
@@ -78,7 +79,7 @@ def stepLine (st : DState) (line : String) : DState × String :=
       | none => (st, "bad-op")
     else if tok = "ks.load" then (st, (ksStep toks).getD "bad-op")
     else if tok = "mon.c17" || tok = "mon.c17.f14" || tok = "mon.c17.concurrent-validation" || tok.startsWith "mon.c20." ||
-        tok = "mon.c09.block" || tok = "mon.c09.parallelism" || tok = "mon.c09.read-history" || tok = "mon.c09.genesis-spellings" || tok = "mon.c09.genesis-order" || tok = "mon.c10.block" || tok = "mon.c10.restart-after-handler" || tok = "mon.c10.stale-upgrade-info" || tok = "mon.c10.restart-inside-upgrade-block" || tok = "mon.c19.start-at-upgrade-height" || tok = "mon.c10.restart-after-param-change" || tok = "mon.c19.upgrade" || tok = "mon.c19.database-of-the-upgrade-path" || tok = "mon.c19.genesis-without-upgrade-section" then
+        tok = "mon.c09.block" || tok = "mon.c09.parallelism" || tok = "mon.c09.read-history" || tok = "mon.c09.node-config" || tok = "mon.c09.genesis-spellings" || tok = "mon.c09.genesis-order" || tok = "mon.c10.block" || tok = "mon.c10.restart-after-handler" || tok = "mon.c10.stale-upgrade-info" || tok = "mon.c10.restart-inside-upgrade-block" || tok = "mon.c19.start-at-upgrade-height" || tok = "mon.c10.restart-after-param-change" || tok = "mon.c19.upgrade" || tok = "mon.c19.database-of-the-upgrade-path" || tok = "mon.c19.genesis-without-upgrade-section" then
       -- runtime monitors: the model's verdict is what the property demands (Properties/C09, C10, C19, C20)
       (st, "pass")
     else if tok.startsWith "bank." || tok = "endblock" || tok = "mon.c07.inv" then
